@@ -236,10 +236,15 @@ func (e *Engine) toBinary(s *State, f *Frame, x *ssa.Call, v *Term, n int, probe
 	el := make([]Value, n)
 	if e.mode == COMPLETE {
 		// honest bits: b_i = (v div 2^i) mod 2; constraint: v < 2^n
+		sum := Int64C(0)
 		for i := 0; i < n; i++ {
-			el[i] = VInt{Mod(Div(v, IntC(bigPow2(uint(i)))), Int64C(2))}
+			b := Mod(Div(v, IntC(bigPow2(uint(i)))), Int64C(2))
+			el[i] = VInt{b}
+			sum = Add(sum, Mul(b, IntC(bigPow2(uint(i)))))
 		}
 		e.constraint(s, f, x, "range", Lt(v, IntC(bigPow2(uint(n)))), fmt.Sprintf("ToBinary(%d): value fits", n), probe)
+		// binary expansion: for 0 <= v < 2^n the honest bits recompose to v (a fact about integers)
+		s.assume(Implies(And(Le(Int64C(0), v), Lt(v, IntC(bigPow2(uint(n))))), Eq(v, sum)))
 	} else {
 		sum := Int64C(0)
 		for i := 0; i < n; i++ {
